@@ -65,6 +65,7 @@ class AliasAnalysis:
         for f in funcs:
             self.by_name.setdefault(f.name, []).append(f)
         self.memo_containers: Dict[Tuple[str, str], str] = {}   # (class or module key, name) -> description
+        self.memo_modules: Dict[Tuple[str, str], str] = {}
         self._local_defs: Dict[int, Dict[str, list]] = {}
         self._orig_cache: Dict[Tuple[int, int], Set[tuple]] = {}
         self._in_progress: Set[Tuple[int, int]] = set()
@@ -97,6 +98,7 @@ class AliasAnalysis:
             for c in stores & reads:
                 key = (f.cls.name if (c.startswith("self.") and f.cls) else f.module.name, c)
                 self.memo_containers[key] = f"{c} (stored and read back by key in {f.where})"
+                self.memo_modules[key] = f.module.relpath
 
     def _is_container_ref(self, f: FunctionInfo, c: ast.expr) -> bool:
         if isinstance(c, ast.Attribute) and isinstance(c.value, ast.Name) and c.value.id == "self":
@@ -419,8 +421,8 @@ class AliasAnalysis:
     def _judge(self, f, node, recv, desc, via):
         for o in sorted(self.origins(recv, f)):
             if o[0] == "memo":
-                self.findings.append(("memo", f, node, desc, f"`{src(recv)}` may be the object stored in the memo container {o[2]} of {o[1]}"
-                                      + (f"; {via}" if via else "")))
+                self.findings.append(("memo", f, node, desc, f"`{src(recv)}` may be the object stored in the memo container {o[2]} of {o[1]} "
+                                      f"({self.memo_modules.get((o[1], o[2]), '')})" + (f"; {via}" if via else "")))
             elif o[0] == "leaked":
                 self.findings.append(("leak", f, node, desc, f"`{src(recv)}` may be the attribute self.{o[2]} of a {o[1]} object, handed out by "
                                       f"reference by {o[3]}" + (f"; {via}" if via else "")))
